@@ -9,7 +9,7 @@ cd "$(dirname "$0")/.."
 RW=/tmp/wt/rerun; VD=/tmp/wt/rerun_verif
 [ -d $RW ] || git -C /repo worktree add -q --detach $RW HEAD || exit 2
 git -C $RW checkout -q --detach "$(git -C /repo rev-parse HEAD)" && git -C $RW checkout -q -- .
-mkdir -p $VD/evidence/replay; cp known_findings.json $VD/
+mkdir -p $VD/evidence/replay $VD/checker; cp known_findings.json $VD/; cp checker/param_names.json $VD/checker/
 out=seeding/rerun_results.tsv
 ids="$@"; [ -z "$ids" ] && ids=$(ls seeded | sort -V) && : > $out
 for id in $ids; do
